@@ -3,13 +3,13 @@
 gen_model(rng, modname, profile) -> (python source, spec)
 spec = {"module": modname, "classes": [{"name", "parent", "fields": [{"name", "kind", "target"}]}], "order": [...]}
 
-Field kinds: int str float bool opt_int opt_str opt_float enum opt_enum datetime list_str list_int
+Field kinds: int str float bool opt_int opt_str opt_float enum opt_enum datetime list_str list_int set_str set_int
              ref opt_ref list_ref set_ref self_opt self_list type private
 """
 from __future__ import annotations
 
 SCALARS = ["int", "str", "float", "bool", "opt_int", "opt_str", "opt_float", "enum", "opt_enum", "datetime"]
-JSONS = ["list_str", "list_int"]
+JSONS = ["list_str", "list_int", "list_str", "list_int", "set_str", "set_int"]
 RELS = ["ref", "opt_ref", "list_ref", "list_ref", "set_ref", "self_opt"]
 
 ANNOT = {
@@ -18,6 +18,7 @@ ANNOT = {
     "enum": ("Color", "Color.R"), "opt_enum": ("Optional[Color]", "None"),
     "datetime": ("datetime", "field(default_factory=lambda: datetime(2020, 1, 1))"),
     "list_str": ("List[str]", "field(default_factory=list)"), "list_int": ("List[int]", "field(default_factory=list)"),
+    "set_str": ("Set[str]", "field(default_factory=set)"), "set_int": ("Set[int]", "field(default_factory=set)"),
     "private": ("int", "0"),
 }
 
